@@ -25,15 +25,12 @@ Definition find_sim (m : sims) (i : nat) : option st :=
 Definition drop_sim (m : sims) (i : nat) : sims :=
   filter (fun kv => negb (Nat.eqb (fst kv) i)) m.
 
-Definition target (o : dop) : option nat :=
-  match o with DMod j _ => Some j | _ => None end.
-
 Definition run_step (alias : bool) (y0 : Z) (ny : nat) (pp : popu) (inputs : list request)
            (w : world) (m : sims) (s : step) : world * sims * obs :=
   match s with
   | SDerive o =>
       (* the harness discards the long-lived simulation of a system modified in place *)
-      let m' := match target o with Some j => drop_sim m j | None => m end in
+      let m' := match target_of o with Some j => drop_sim m j | None => m end in
       match apply_dop alias w o with
       | Ok w' => (w', m', ONone)
       | Err e => (w, m', OErr e)
